@@ -103,14 +103,19 @@ func (c *char) talentFua() {
 	}
 	// Do 3 fuas
 	for i := 0; i < 3; i++ {
-		target := c.engine.Retarget(info.Retarget{
+		targets := c.engine.Retarget(info.Retarget{
 			Targets: c.engine.Enemies(),
 			Filter: func(target key.TargetID) bool {
 				return c.engine.HPRatio(target) > 0
 			},
 			Max:          1,
 			IncludeLimbo: true,
-		})[0]
+		})
+		// every enemy is already at zero HP: nothing left to hit
+		if len(targets) == 0 {
+			break
+		}
+		target := targets[0]
 		c.engine.Attack(info.Attack{
 			Key:        TalentFua,
 			Source:     c.id,
